@@ -54,8 +54,8 @@ ASSUMPTIONS = [
     '(c) PhoenixStar and the lightcurve model need external data/packages and are not exercised',
 ]
 _Q = {'models_known': 9, 'dicts_known': 4, 'dicts': 220, 'api': 60, 'spectra': 50, 'synth_spectra': 120, 'models': 55}
-_T = {'models_known': 36, 'dicts_known': 16, 'dicts': 1800, 'api': 400, 'spectra': 300, 'synth_spectra': 1200,
-      'models': 330}
+_T = {'models_known': 27, 'dicts_known': 12, 'dicts': 1200, 'api': 300, 'spectra': 200, 'synth_spectra': 800,
+      'models': 220}
 BUDGET = {
     'quick': [dict(name='main', env={'NUMBA_BOUNDSCHECK': '1'}, shards=4, cases=_Q)],
     'thorough': [dict(name='main', env={'NUMBA_BOUNDSCHECK': '1'}, shards=16, cases=_T)],
